@@ -284,8 +284,16 @@ fn run_case(w: &mut Worker, c: &Case, idx: u64) -> CaseOut {
         Ok(_) => "ok".to_string(),
         Err(e) => format!("{}: {}", e.class(), e.text()),
     };
+    // a delegated role longer than the length its snapshot entry lists: C05 does not speak about it
+    // (C09 does: it must be refused), so no expectation either way here
+    let d1_orig = render(&sb.d1, style);
+    let deleg_len_exceeded = mismatch.is_none() && c.d1_listed && c.pin_tg.length && d1_served.len() > d1_orig.len();
+    if deleg_len_exceeded {
+        out.h("delegated-longer-than-listed-length(unjudged here, see C09)");
+    }
     match (&res, mismatch) {
         (Err(client::LoadErr::Watchdog), _) => out.inconc("watchdog"),
+        (_, None) if deleg_len_exceeded => {}
         (Ok(_), Some((pin, what))) => out.viol(
             format!("mismatch-accepted:pin={pin}:what={what}"),
             format!("states (ts,snap,tg,d1)=({},{},{},{}) pins snap={} tg={} variants {:?}/{:?}/{:?}: load succeeded", c.a, c.b, c.c, c.d, pin_name(c.pin_snap), pin_name(c.pin_tg), c.var_snap, c.var_tg, c.var_d1),
